@@ -182,7 +182,7 @@ def required_labels(tier):
 
 
 def phases(tier, seed):
-    n = 3200 if tier == 'quick' else 16000
+    n = 3200 if tier == 'quick' else 100000
     return [
         Enum('triples', lambda: triple_cases(tier, seed), exhaustive=True,
              note='all 44 versions x supported levels x 8/4 masks = 1312 triples, several contents each'),
